@@ -8,6 +8,7 @@
 package c12
 
 import (
+	"bufio"
 	"context"
 	"encoding/binary"
 	"encoding/json"
@@ -15,6 +16,7 @@ import (
 	"fmt"
 	"io"
 	"os"
+	"os/exec"
 	"runtime"
 	"strings"
 	"sync"
@@ -48,6 +50,13 @@ type Doc struct {
 	ID    uint64   `json:"id"`
 	Bad   []uint64 `json:"bad,omitempty"`   // validators whose settings this document makes unresolvable
 	Relay bool     `json:"relay,omitempty"` // the document configures a relay
+	// the document carries proposer-specific entries (by public key and by account expression) even
+	// when it makes nobody unresolvable; documents with unresolvable validators always carry them
+	Entries bool `json:"entries,omitempty"`
+	// an unversioned (version 1) document: default configuration plus one entry per validator 1..4.
+	// Version 1 never asks the account for its name, so requests cannot be held inside the read lock
+	// while such a document is active: only scenarios without gated requests use it.
+	V1 bool `json:"v1,omitempty"`
 }
 
 type Cmd struct {
@@ -59,6 +68,13 @@ type Cmd struct {
 	Malformed string `json:"malformed,omitempty"` // which malformed content
 	Doc       *Doc   `json:"doc,omitempty"`       // refresh with fetch = ok
 	K         int    `json:"k,omitempty"`         // release: number of the request (spawn order)
+	// the goroutine of this request makes it for this many distinct validators with the same settings
+	// as validator V (lookup, auction), or runs the registration round over this many accounts per
+	// validator 1..4 (reg); 0 = 1.  All answers of one series must be the same answer.
+	Many int `json:"many,omitempty"`
+	// do not wait for the implementation to settle after this command: the next command is issued at
+	// once, so that the requests of a group overlap (the generators never put a refresh in a group)
+	NoSettle bool `json:"nosettle,omitempty"`
 }
 
 type Scenario struct {
@@ -95,6 +111,7 @@ type scriptKey struct{}
 
 type script struct {
 	acc       string // "", err, none
+	many      int    // registration round: accounts per validator
 	fetch     func() ([]byte, error)
 	account   *acct
 	bidFee    *uint64 // set by the builder-bid provider: id of the fee recipient it was asked with
@@ -113,8 +130,16 @@ func (fakePub) Aggregate(e2types.PublicKey)  {}
 func (p fakePub) Copy() e2types.PublicKey    { return p }
 func pubkeyOf(v uint64) (pk phase0.BLSPubKey) { pk[0] = 0xa0; binary.BigEndian.PutUint64(pk[40:], v); return }
 
+// the k-th validator with the settings of validator v (k = 0: validator v itself)
+func pubkeyOfK(v, k uint64) (pk phase0.BLSPubKey) {
+	pk = pubkeyOf(v)
+	binary.BigEndian.PutUint64(pk[8:], k)
+	return
+}
+
 type acct struct {
 	v       uint64
+	k       uint64        // series number (0: the validator itself)
 	gate    chan struct{} // nil: never blocks
 	entered chan struct{}
 	once    sync.Once
@@ -133,9 +158,12 @@ func (a *acct) Name() string {
 		a.once.Do(func() { close(a.entered) })
 		<-a.gate
 	}
+	if a.k > 0 {
+		return fmt.Sprintf("account-%d-%d", a.v, a.k)
+	}
 	return fmt.Sprintf("account-%d", a.v)
 }
-func (a *acct) PublicKey() e2types.PublicKey { return fakePub{b: pubkeyOf(a.v)} }
+func (a *acct) PublicKey() e2types.PublicKey { return fakePub{b: pubkeyOfK(a.v, a.k)} }
 
 type accountsProvider struct{}
 
@@ -143,7 +171,9 @@ func (accountsProvider) AccountByPublicKey(ctx context.Context, pubkey phase0.BL
 	if s := scriptOf(ctx); s != nil && s.account != nil {
 		return s.account, nil
 	}
-	return newAcct(binary.BigEndian.Uint64(pubkey[40:]), false), nil
+	a := newAcct(binary.BigEndian.Uint64(pubkey[40:]), false)
+	a.k = binary.BigEndian.Uint64(pubkey[8:])
+	return a, nil
 }
 
 type validatingAccounts struct{}
@@ -160,8 +190,16 @@ func (validatingAccounts) ValidatingAccountsForEpoch(ctx context.Context, _ phas
 		return map[phase0.ValidatorIndex]e2wtypes.Account{}, nil
 	}
 	res := make(map[phase0.ValidatorIndex]e2wtypes.Account)
+	many := uint64(1)
+	if s := scriptOf(ctx); s != nil && s.many > 1 {
+		many = uint64(s.many)
+	}
 	for v := uint64(1); v <= nValidators; v++ {
-		res[phase0.ValidatorIndex(v)] = newAcct(v, false)
+		for k := uint64(0); k < many; k++ {
+			a := newAcct(v, false)
+			a.k = k
+			res[phase0.ValidatorIndex(v+k*(nValidators+1))] = a
+		}
 	}
 	return res, nil
 }
@@ -231,27 +269,63 @@ func feeID(a bellatrix.ExecutionAddress) uint64 {
 	return binary.BigEndian.Uint64(a[12:])
 }
 
+// baseMarker distinguishes the document-level fee recipient of a document with proposer entries from
+// the fee recipient its entries give: every validator that resolves does so through an entry, so an
+// answer carrying the marker means "the entry that applies to this validator was not applied".
+const baseMarker = uint64(1) << 40
+
 func docJSON(d *Doc) []byte {
 	var b strings.Builder
-	fmt.Fprintf(&b, `{"version":2,"fee_recipient":"%s"`, docFee(d.ID))
-	if d.Relay {
-		fmt.Fprintf(&b, `,"relays":{"%s":{}}`, relayAddress)
+	if d.V1 {
+		entry := fmt.Sprintf(`{"fee_recipient":"%s","gas_limit":"30000000","builder":{"enabled":%v,"relays":["%s"]}}`,
+			docFee(d.ID), d.Relay, relayAddress)
+		fmt.Fprintf(&b, `{"default_config":%s,"proposer_config":{`, entry)
+		for v := uint64(1); v <= nValidators; v++ {
+			pk := pubkeyOf(v)
+			if v > 1 {
+				b.WriteString(",")
+			}
+			fmt.Fprintf(&b, `"%#x":%s`, pk[:], entry)
+		}
+		b.WriteString("}}")
+		return []byte(b.String())
 	}
 	bad := map[uint64]bool{}
 	for _, v := range d.Bad {
 		bad[v] = true
 	}
-	if len(bad) > 0 {
-		// the validators that still resolve get an entry of their own; everybody else runs into an
-		// entry that names neither an account nor a validator, which ProposerConfig cannot apply
+	entries := d.Entries || len(bad) > 0
+	if entries {
+		fmt.Fprintf(&b, `{"version":2,"fee_recipient":"%s"`, docFee(d.ID|baseMarker))
+	} else {
+		fmt.Fprintf(&b, `{"version":2,"fee_recipient":"%s"`, docFee(d.ID))
+	}
+	if d.Relay {
+		fmt.Fprintf(&b, `,"relays":{"%s":{}}`, relayAddress)
+	}
+	if entries {
+		// the validators that still resolve get entries of their own (by public key for the validator
+		// itself, by account expression for the whole series with its settings); everybody else runs
+		// into an entry that names neither an account nor a validator, which ProposerConfig cannot apply
 		b.WriteString(`,"proposers":[`)
+		sep := ""
 		for v := uint64(0); v <= nValidators; v++ {
 			if !bad[v] {
 				pk := pubkeyOf(v)
-				fmt.Fprintf(&b, `{"proposer":"%#x"},`, pk[:])
+				fmt.Fprintf(&b, `%s{"proposer":"%#x","fee_recipient":"%s"}`, sep, pk[:], docFee(d.ID))
+				sep = ","
 			}
 		}
-		fmt.Fprintf(&b, `{"proposer":"0x%s"}]`, strings.Repeat("00", 48))
+		for v := uint64(0); v <= nValidators; v++ {
+			if !bad[v] {
+				fmt.Fprintf(&b, `%s{"proposer":"<unknown>/account-%d(-[0-9]+)?","fee_recipient":"%s"}`, sep, v, docFee(d.ID))
+				sep = ","
+			}
+		}
+		if len(bad) > 0 {
+			fmt.Fprintf(&b, `%s{"proposer":"0x%s"}`, sep, strings.Repeat("00", 48))
+		}
+		b.WriteString("]")
 	}
 	b.WriteString("}")
 	return []byte(b.String())
@@ -266,6 +340,7 @@ type thread struct {
 	done     chan struct{}
 	res      string // Gallina result
 	panicked bool
+	mixed    bool // the answers of one series of requests were not all the same
 	finished bool
 	doneAt   int
 	inGate   bool
@@ -380,6 +455,14 @@ func (r *runner) spawn(ctx context.Context, c Cmd, repeat int) {
 			sc.fetch = func() ([]byte, error) { return nil, errors.New("scripted: source unavailable") }
 		}
 	}
+	many := 1
+	if c.Many > 1 && !c.Gate {
+		many = c.Many
+	}
+	if c.Op == "reg" {
+		sc.many = many
+		many = 1
+	}
 	tctx := context.WithValue(ctx, scriptKey{}, sc)
 	r.threads = append(r.threads, th)
 	go func() {
@@ -390,32 +473,48 @@ func (r *runner) spawn(ctx context.Context, c Cmd, repeat int) {
 				th.res = "RAny"
 			}
 		}()
+		first := true
+		answer := func(res string) {
+			if !first && res != th.res {
+				th.mixed = true
+			}
+			first = false
+			th.res = res
+		}
 		for i := 0; i < repeat; i++ {
-			switch c.Op {
-			case "lookup":
-				pc, err := r.svc.ProposerConfig(tctx, th.account, pubkeyOf(c.V))
-				if err != nil {
-					th.res = "RErr"
-				} else {
-					th.res = App("RFee", N(feeID(pc.FeeRecipient)))
+			for k := uint64(0); k < uint64(many); k++ {
+				account := th.account
+				if k > 0 {
+					account = newAcct(c.V, false)
+					account.k = k
 				}
-			case "auction":
-				sc.bidCalled, sc.bidFee = false, nil
-				_, err := r.svc.AuctionBlock(tctx, phase0.Slot(100+i), phase0.Hash32{byte(c.V)}, pubkeyOf(c.V))
-				switch {
-				case err != nil:
-					th.res = "RErr"
-				case sc.bidCalled:
-					th.res = App("RFee", N(*sc.bidFee))
-				default:
-					th.res = "RNoRelays"
+				switch c.Op {
+				case "lookup":
+					pc, err := r.svc.ProposerConfig(tctx, account, pubkeyOfK(c.V, k))
+					if err != nil {
+						answer("RErr")
+					} else {
+						answer(App("RFee", N(feeID(pc.FeeRecipient))))
+					}
+				case "auction":
+					sc.account = account
+					sc.bidCalled, sc.bidFee = false, nil
+					_, err := r.svc.AuctionBlock(tctx, phase0.Slot(100+i), phase0.Hash32{byte(c.V)}, pubkeyOfK(c.V, k))
+					switch {
+					case err != nil:
+						answer("RErr")
+					case sc.bidCalled:
+						answer(App("RFee", N(*sc.bidFee)))
+					default:
+						answer("RNoRelays")
+					}
+				case "reg":
+					r.svc.VerifC12SubmitValidatorRegistrations(tctx)
+					th.res = "RDone"
+				case "refresh":
+					r.svc.VerifC12FetchExecutionConfig(tctx)
+					th.res = "RDone"
 				}
-			case "reg":
-				r.svc.VerifC12SubmitValidatorRegistrations(tctx)
-				th.res = "RDone"
-			case "refresh":
-				r.svc.VerifC12FetchExecutionConfig(tctx)
-				th.res = "RDone"
 			}
 		}
 	}()
@@ -428,6 +527,8 @@ type Obs struct {
 	LockFree bool     `json:"lock_free"`
 	Timeouts int      `json:"timeouts"`
 	Panics   int      `json:"panics"`
+	Mixed    int      `json:"mixed,omitempty"`   // series of requests whose answers were not all the same
+	Crashed  string   `json:"crashed,omitempty"` // the process running the scenario died: how
 }
 
 // clean: everything returned, no settle ran into the watchdog, the lock is free.
@@ -437,7 +538,7 @@ func (o Obs) clean() bool {
 			return false
 		}
 	}
-	return o.Timeouts == 0 && o.LockFree
+	return o.Timeouts == 0 && o.LockFree && o.Crashed == ""
 }
 
 // runConfirmed runs a scenario; a run that is not clean is repeated (fresh service, twice, with a
@@ -499,7 +600,7 @@ func runOnce(s Scenario, watchdogFactor int) (Obs, bool) {
 		} else {
 			r.spawn(ctx, c, repeat)
 		}
-		if !s.Stress {
+		if !s.Stress && !c.NoSettle {
 			r.settle()
 		}
 	}
@@ -535,6 +636,12 @@ func runOnce(s Scenario, watchdogFactor int) (Obs, bool) {
 		res := "RAny"
 		if th.finished {
 			res = th.res
+			if th.mixed && !s.Stress {
+				// one series of requests with nothing changing the configuration meanwhile
+				// must give one answer: report "no answer" (never an expected one)
+				res = "RAny"
+				o.Mixed++
+			}
 		}
 		if th.panicked {
 			o.Panics++
@@ -595,7 +702,7 @@ func cmdTerm(c Cmd) string {
 	return App("Spawn", Record("sp_kind", kind, "sp_v", N(c.V), "sp_gate", Bool(c.Gate), "sp_ref", ref))
 }
 
-func caseTerm(id uint64, s Scenario, o Obs) string {
+func caseTerm(id uint64, s Scenario, o Obs, readerWrites int) string {
 	cmds := make([]string, 0, len(s.Cmds))
 	for _, c := range s.Cmds {
 		cmds = append(cmds, cmdTerm(c))
@@ -609,7 +716,8 @@ func caseTerm(id uint64, s Scenario, o Obs) string {
 		init = Some(Record("d_id", N(0), "d_bad", List(nil), "d_relay", "false"))
 	}
 	return Record("c_id", N(id), "c_init", init, "c_url", Bool(s.URL), "c_stress", Bool(s.Stress),
-		"c_cmds", List(cmds), "c_obs", List(obs), "c_lock_free", Bool(o.LockFree), "c_timeouts", Nat(o.Timeouts))
+		"c_cmds", List(cmds), "c_obs", List(obs), "c_lock_free", Bool(o.LockFree), "c_timeouts", Nat(o.Timeouts),
+		"c_crashed", Bool(o.Crashed != ""), "c_reader_writes", Nat(readerWrites))
 }
 
 // ---------------------------------------------------------------------------------------------
@@ -717,11 +825,77 @@ func gen(r *Rand, search bool) Scenario {
 		s.URL = false
 	}
 	g := &genState{r: r, s: &s, tags: map[string]bool{}}
-	fam := r.Intn(10)
-	if search && r.Chance(1, 2) {
-		fam = 9
+	fam := r.Intn(12)
+	if search {
+		switch r.Intn(3) {
+		case 0:
+			fam = 9
+		case 1:
+			fam = 10
+		}
 	}
 	switch {
+	case fam >= 10:
+		// burst: right after a refresh that installs a document with proposer-specific entries, a group
+		// of overlapping requests (lookups, auctions, a registration round), each for a long series of
+		// distinct validators nobody has asked about since the refresh.  Nothing changes the
+		// configuration while a group runs, so every answer is determined: it is compared.
+		// Half of the time the refresh is held up by a request inside the read lock and the group
+		// queues behind the announced writer: then the whole group starts at the same instant.
+		s.URL = true
+		g.tags["burst"] = true
+		v1 := r.Chance(1, 5)
+		if v1 {
+			g.tags["version-1-documents"] = true
+		}
+		for round, rounds := 0, r.Range(1, 3); round < rounds; round++ {
+			queued := r.Chance(1, 2) && !v1
+			if queued {
+				g.reader(true)
+			}
+			d := g.doc()
+			d.Entries = true
+			if v1 {
+				d = &Doc{ID: d.ID, Relay: d.Relay, V1: true}
+			}
+			g.add(Cmd{Op: "refresh", Fetch: "ok", Doc: d})
+			if queued {
+				g.inflight = append([]int{}, g.openGates...)
+				g.tags["writer-inside-reader"] = true
+				g.tags["burst-queued-behind-writer"] = true
+			}
+			if r.Chance(1, 3) && !queued {
+				// a failing refresh in between changes nothing
+				if r.Bool() {
+					g.add(Cmd{Op: "refresh", Fetch: "err"})
+					g.tags["fetch-error"] = true
+				} else {
+					g.add(Cmd{Op: "refresh", Fetch: "malformed", Malformed: malformedNames[r.Intn(len(malformedNames))]})
+					g.tags["malformed"] = true
+				}
+			}
+			workers, many := r.Range(4, 16), r.Range(40, 300)
+			if search {
+				workers, many = r.Range(8, 32), r.Range(300, 3000)
+			}
+			reg := r.Chance(1, 2)
+			for w := 0; w < workers; w++ {
+				c := Cmd{Op: "lookup", V: uint64(r.Range(1, nValidators)), Many: many, NoSettle: true}
+				if r.Chance(2, 5) {
+					c.Op = "auction"
+				}
+				if reg && w == workers/2 {
+					c = Cmd{Op: "reg", Many: many / 4, NoSettle: true}
+				}
+				if w == workers-1 && !queued {
+					c.NoSettle = false
+				}
+				g.add(c)
+			}
+			for len(g.openGates) > 0 {
+				g.release(r.Intn(len(g.openGates)))
+			}
+		}
 	case fam == 9:
 		// stress: many requests of every kind at once, repeated, against refreshes with changing outcomes
 		s.Stress, s.Repeat, s.URL = true, r.Range(20, 200), true
@@ -821,6 +995,152 @@ func sortStrings(xs []string) {
 }
 
 // ---------------------------------------------------------------------------------------------
+// The scenarios run in a child process (this test binary again, VERIF_C12_CHILD set): a fatal runtime
+// error (concurrent map writes, unlock of an unlocked mutex, a panic in a goroutine of the service,
+// stack exhaustion) kills that process only.  The parent restarts it after the scenario on which it
+// died and reports "the process died" as the observed outcome of that scenario.
+
+type Work struct {
+	S      Scenario `json:"s"`
+	Origin string   `json:"origin"`
+	Trace  bool     `json:"trace,omitempty"`
+}
+
+type Result struct {
+	Index   int  `json:"index"`
+	Obs     Obs  `json:"obs"`
+	Retries int  `json:"retries"`
+	Hung    bool `json:"hung"`
+}
+
+func child(t *testing.T) {
+	var work []Work
+	data, err := os.ReadFile(os.Getenv("VERIF_C12_WORK"))
+	if err != nil {
+		t.Fatal(err)
+	}
+	if err := json.Unmarshal(data, &work); err != nil {
+		t.Fatal(err)
+	}
+	out, err := os.OpenFile(os.Getenv("VERIF_C12_RESULTS"), os.O_APPEND|os.O_CREATE|os.O_WRONLY, 0o644)
+	if err != nil {
+		t.Fatal(err)
+	}
+	defer out.Close()
+	hungScenarios = EnvInt("VERIF_C12_HUNG", 0)
+	zerologger.Logger = zerolog.New(io.Discard)
+	for i := EnvInt("VERIF_C12_FROM", 0); i < len(work); i++ {
+		logLevel = zerolog.Disabled
+		if work[i].Trace {
+			logLevel = zerolog.TraceLevel
+		}
+		before := hungScenarios
+		o, retries := runConfirmed(work[i].S)
+		line, _ := json.Marshal(Result{Index: i, Obs: o, Retries: retries, Hung: hungScenarios > before})
+		if _, err := out.Write(append(line, '\n')); err != nil {
+			t.Fatal(err)
+		}
+	}
+}
+
+func nSpawns(s Scenario) int {
+	n := 0
+	for _, c := range s.Cmds {
+		if c.Op != "release" {
+			n++
+		}
+	}
+	return n
+}
+
+// crashedObs: what is observed of a scenario on which the process died: nothing returned.
+func crashedObs(s Scenario, how string) Obs {
+	o := Obs{Crashed: how}
+	for i := 0; i < nSpawns(s); i++ {
+		o.Finished = append(o.Finished, false)
+		o.Results = append(o.Results, "RAny")
+		o.DoneAt = append(o.DoneAt, 0)
+	}
+	return o
+}
+
+const maxCrashes = 20
+
+// runAll runs the work in child processes; results[i] is missing (nil) only for the scenarios after
+// the one with the maxCrashes-th crash.
+func runAll(t *testing.T, work []Work) (results []*Result, crashes int) {
+	dir, err := os.MkdirTemp("", "c12")
+	if err != nil {
+		t.Fatal(err)
+	}
+	defer os.RemoveAll(dir)
+	workFile, resFile := dir+"/work.json", dir+"/results.jsonl"
+	data, _ := json.Marshal(work)
+	if err := os.WriteFile(workFile, data, 0o644); err != nil {
+		t.Fatal(err)
+	}
+	hung := 0
+	for len(results) < len(work) && crashes < maxCrashes {
+		os.Remove(resFile)
+		cmd := exec.Command(os.Args[0], "-test.run", "^TestC12$", "-test.count=1", "-test.timeout", "3000s")
+		cmd.Env = append(os.Environ(), "VERIF_C12_CHILD=1", "VERIF_C12_WORK="+workFile, "VERIF_C12_RESULTS="+resFile,
+			fmt.Sprintf("VERIF_C12_FROM=%d", len(results)), fmt.Sprintf("VERIF_C12_HUNG=%d", hung))
+		outb, runErr := cmd.CombinedOutput()
+		if f, err := os.Open(resFile); err == nil {
+			scan := bufio.NewScanner(f)
+			scan.Buffer(make([]byte, 1<<20), 1<<26)
+			for scan.Scan() {
+				var r Result
+				if json.Unmarshal(scan.Bytes(), &r) == nil && r.Index == len(results) {
+					if r.Hung {
+						hung++
+					}
+					results = append(results, &r)
+				}
+			}
+			f.Close()
+		}
+		if len(results) < len(work) {
+			// the child died on scenario number len(results)
+			crashes++
+			msg := string(outb)
+			if i := strings.Index(msg, "fatal error:"); i >= 0 {
+				msg = msg[i:]
+			} else if i := strings.Index(msg, "panic:"); i >= 0 {
+				msg = msg[i:]
+			}
+			if i := strings.Index(msg, "\n"); i >= 0 {
+				// first line, and the first frame of the repository if there is one
+				rest := msg[i:]
+				msg = msg[:i]
+				if k := strings.Index(rest, "github.com/attestantio/vouch/"); k >= 0 {
+					fr := rest[k:]
+					if e := strings.Index(fr, "\n"); e >= 0 {
+						fr = fr[:e]
+					}
+					// drop the argument list: the last "(" that does not open a receiver type
+					if e := strings.LastIndex(fr, "("); e >= 0 && !strings.HasPrefix(fr[e:], "(*") {
+						fr = fr[:e]
+					}
+					msg += " in " + fr
+				}
+			}
+			if len(msg) > 300 {
+				msg = msg[:300]
+			}
+			if runErr == nil {
+				msg = "child stopped early: " + msg
+			}
+			results = append(results, &Result{Index: len(results), Obs: crashedObs(work[len(results)].S, msg)})
+		}
+	}
+	for len(results) < len(work) {
+		results = append(results, nil)
+	}
+	return results, crashes
+}
+
+// ---------------------------------------------------------------------------------------------
 
 func TestC12(t *testing.T) {
 	// malformed contents must really be rejected by the parser (an assumption of the generator)
@@ -831,19 +1151,63 @@ func TestC12(t *testing.T) {
 	}
 	sortStrings(malformedNames)
 	util.InjectBuilderClientC09(relayAddress, relayClient{})
+	if os.Getenv("VERIF_C12_CHILD") != "" {
+		child(t)
+		return
+	}
 
 	col := NewCollector("C12", "Check.C12",
 		"non-trivial = at least one configuration refresh and one lookup/auction whose answer is checked against the last good configuration, or a stress scenario")
 	col.Note(fmt.Sprintf("malformed contents rejected by blockrelay.UnmarshalJSON: %v (of %d)", malformedNames, len(malformedContents)))
 	col.Note("fetch outcome Nil (obtainExecutionConfig returning nil,nil) is modelled but cannot be driven: it needs a dynamic source and no public keys, which the accounts check excludes")
+	col.Note("scenarios run in a child process; a scenario on which that process dies (fatal runtime error, panic outside the request's own goroutine) is reported with c_crashed = true")
 	// common.NewRand(seed) streams for consecutive seeds are shifts of one another (the state is
 	// seed*golden+c and advances by golden): derive the stream from a hashed seed instead
 	rng := NewRand(NewRand(Seed()).U64())
 	n := EnvInt("VERIF_N", 400)
 	search := os.Getenv("VERIF_SEARCH") == "1"
 
-	run := func(s Scenario, origin string) {
-		o, retries := runConfirmed(s)
+	var work []Work
+	for _, s := range LoadInputs[Scenario]("C12") {
+		work = append(work, Work{S: s, Origin: "corpus"})
+	}
+	trace := os.Getenv("VERIF_TIER") == "thorough"
+	for i := 0; i < n; i++ {
+		work = append(work, Work{S: gen(rng.Fork(), search), Origin: "generated", Trace: trace && i%2 == 1})
+	}
+	results, crashes := runAll(t, work)
+
+	// the model's lookups only read the configuration: what the source says about that (static.go)
+	writes, scanErr := readerWrites()
+	if scanErr != "" {
+		col.Note("source scan of the lookup path failed: " + scanErr)
+		writes = []string{"scan failed: " + scanErr}
+	}
+	col.Note(fmt.Sprintf("source scan: functions reachable from ExecutionConfig.ProposerConfig (v1, v2) and Service.ProposerConfig: %d; writes to shared state found: %v", scannedFuncs, writes))
+	{
+		s := Scenario{Init: "empty", URL: true, Tags: []string{"source-scan"}}
+		col.Add(Case{
+			Term:       caseTerm(col.NextID(), s, Obs{LockFree: true}, len(writes)),
+			Key:        "source-scan",
+			Nontrivial: false,
+			Tags:       []string{"source-scan"},
+			Sample:     map[string]any{"input": s, "observed": map[string]any{"writes_to_shared_state_on_the_lookup_path": writes}},
+		})
+	}
+
+	hungTotal, skipped := 0, 0
+	for i, w := range work {
+		if results[i] == nil {
+			skipped++
+			continue
+		}
+		s, o, retries := w.S, results[i].Obs, results[i].Retries
+		if results[i].Hung {
+			hungTotal++
+		}
+		if w.Trace {
+			col.Count("scenarios-at-trace-level")
+		}
 		if retries > 0 {
 			col.Count("scenarios-repeated-before-counting")
 			if o.clean() {
@@ -862,6 +1226,9 @@ func TestC12(t *testing.T) {
 				if c.Gate {
 					col.Count("gated")
 				}
+				if c.Many > 1 {
+					col.Count("series-of-distinct-validators")
+				}
 			default:
 				col.Count(c.Op)
 			}
@@ -872,46 +1239,36 @@ func TestC12(t *testing.T) {
 		if o.Panics > 0 {
 			col.Count("panics")
 		}
-		hung := false
-		for _, f := range o.Finished {
-			if !f {
-				hung = true
+		if o.Mixed > 0 {
+			col.Count("scenarios-with-a-series-of-different-answers")
+		}
+		if o.Crashed != "" {
+			col.Count("scenarios-on-which-the-process-died")
+		} else {
+			hung := false
+			for _, f := range o.Finished {
+				if !f {
+					hung = true
+				}
+			}
+			if hung {
+				col.Count("scenarios-with-a-request-that-did-not-return")
+			}
+			if !o.LockFree {
+				col.Count("scenarios-with-the-lock-still-held")
 			}
 		}
-		if hung {
-			col.Count("scenarios-with-a-request-that-did-not-return")
-		}
-		if !o.LockFree {
-			col.Count("scenarios-with-the-lock-still-held")
-		}
 		key, _ := json.Marshal(s)
-		tags := append([]string{origin}, s.Tags...)
+		tags := append([]string{w.Origin}, s.Tags...)
 		col.Add(Case{
-			Term:       caseTerm(col.NextID(), s, o),
+			Term:       caseTerm(col.NextID(), s, o, 0),
 			Key:        string(key),
 			Nontrivial: s.Stress || (refreshes > 0 && readers > 0),
 			Tags:       tags,
 			Sample:     map[string]any{"input": s, "observed": o},
 		})
 	}
-
-	for _, s := range LoadInputs[Scenario]("C12") {
-		run(s, "corpus")
-	}
-	trace := os.Getenv("VERIF_TIER") == "thorough"
-	if trace {
-		zerologger.Logger = zerolog.New(io.Discard)
-	}
-	for i := 0; i < n; i++ {
-		if trace && i%2 == 1 {
-			logLevel = zerolog.TraceLevel
-			col.Count("scenarios-at-trace-level")
-		} else {
-			logLevel = zerolog.Disabled
-		}
-		run(gen(rng.Fork(), search), "generated")
-	}
-	col.Note(fmt.Sprintf("scenarios that hung: %d", hungScenarios))
+	col.Note(fmt.Sprintf("scenarios that hung: %d; on which the process died: %d; not run after %d deaths: %d", hungTotal, crashes, maxCrashes, skipped))
 	if err := col.Flush(); err != nil {
 		t.Fatal(err)
 	}
